@@ -346,3 +346,43 @@ func SelfCmpBad(x, y *lists) bool { return len(x.a) != len(x.a) || len(x.b) != l
 func SelfCmpOK(x, y *lists) bool  { return len(x.a) != len(y.a) || len(x.b) != len(y.b) }
 func CrossBad(x *lists, v []int)  { x.b = append(x.a, v...) }
 func CrossOK(x *lists, v []int)   { x.b = append(x.b, v...) }
+
+// R-TABLE (partial copy): a value rebuilt from another of its type with a field left out
+type ext struct {
+	Id       int
+	Critical bool
+	Value    []byte
+}
+
+func CopyBad(in []ext) (out []ext) {
+	for _, e := range in {
+		out = append(out, ext{Id: e.Id, Value: append([]byte(nil), e.Value...)})
+	}
+	return
+}
+
+func CopyOK(in []ext) (out []ext) {
+	for _, e := range in {
+		out = append(out, ext{Id: e.Id, Critical: e.Critical, Value: append([]byte(nil), e.Value...)})
+	}
+	return
+}
+
+// R-SCAN: a membership scan that skips index 0
+func ScanBad(xs []int, v int) bool {
+	for i := len(xs) - 1; i > 0; i-- {
+		if xs[i] == v {
+			return true
+		}
+	}
+	return false
+}
+
+func ScanOK(xs []int, v int) bool {
+	for i := len(xs) - 1; i >= 0; i-- {
+		if xs[i] == v {
+			return true
+		}
+	}
+	return false
+}
